@@ -11,11 +11,12 @@ LEVEL = "exploration"
 RULE = (
     "cases = (f_zip|f_sequence|f_traverse, argument list with optional duplicates / already-done inputs, outcome per input from "
     "{value, exception, cancelled, never}, completion events over 1-3 threads, optional cancel of the output, tape; for f_traverse a "
-    "scripted fn over a list or one-shot iterator, possibly raising at element k). Enumerated: all outcome assignments x completion "
-    "orders for n<=4 (thorough n<=5), n=0, duplicates, pre-done masks, output-cancel positions; one case with 1000 inputs; Hypothesis: "
-    "concurrent completions with tapes. Oracle: success => position-wise results (tuple for f_zip, list otherwise); else the first "
-    "non-success of some linearisation consistent with real time; output cancel => every pending input got cancel(); fn called once per "
-    "element in order. Non-trivial = out-of-order or overlapping completion, or a failure/cancel among >=2 inputs. Distinct = digest of the case."
+    "scripted fn over a list or one-shot iterator, possibly raising at element k - a StopIteration at odd k). Enumerated: all outcome "
+    "assignments x completion orders for n<=4 (thorough n<=5), n=0, duplicates, pre-done masks, output-cancel positions; one case "
+    "with 1000 inputs; Hypothesis: concurrent completions with tapes. Oracle: success => position-wise results (tuple for f_zip, list "
+    "otherwise); else the first non-success of some linearisation consistent with real time; output cancel => every pending input got "
+    "cancel(); fn called once per element in order. Non-trivial = out-of-order or overlapping completion, or a failure/cancel among "
+    ">=2 inputs. Distinct = digest of the case."
 )
 ASSUMPTIONS = ["inputs already done at call time are taken to finish in argument order"]
 
